@@ -116,6 +116,127 @@ func runTreeSweep(rep *ev.Report) (int, string) {
 	return runs, sample
 }
 
+// ------------------------------------------------------------------ C12 shape search
+//
+// Explicit-state search over AVL tree SHAPES: a state is the shape of the tree (scores abstracted to
+// ranks); transitions are "insert a new score at rank r" for every r and "delete the member of rank
+// r" for every r, executed on the real Btree by replaying the shortest op sequence that reaches the
+// shape; breadth-first until no new shape with at most MaxNodes nodes appears (a fixpoint: every
+// shape reachable within the node bound, including those only deletions produce, has had every
+// insertion and every deletion applied to it).  Invariants after every operation: search-tree order,
+// stored heights, balance, len, member index, in-order content.
+
+type shapeTask struct{ MaxNodes int }
+type shapeResult struct {
+	States, Transitions, MaxDepth int
+	PerNodes                      map[int]int
+	Viol                          []string
+	Seq                           []string
+}
+
+func shapeOpsString(ops []memdb.VerifTreeOp) string {
+	var parts []string
+	for _, o := range ops {
+		if o.Del {
+			parts = append(parts, fmt.Sprintf("del@%d", o.Rank))
+		} else {
+			parts = append(parts, fmt.Sprintf("ins@%d", o.Rank))
+		}
+	}
+	return strings.Join(parts, " ")
+}
+
+func shapeWorker(tb []byte, progress func()) []byte {
+	var t shapeTask
+	json.Unmarshal(tb, &t)
+	res := shapeResult{PerNodes: map[int]int{}}
+	type st struct {
+		ops []memdb.VerifTreeOp
+		n   int
+	}
+	seen := map[string]bool{".": true}
+	frontier := []st{{nil, 0}}
+	res.States = 1
+	res.PerNodes[0] = 1
+	sigs := map[string]bool{}
+	for depth := 0; len(frontier) > 0; depth++ {
+		var next []st
+		for _, s := range frontier {
+			var cands []memdb.VerifTreeOp
+			if s.n < t.MaxNodes {
+				for r := 0; r <= s.n; r++ {
+					cands = append(cands, memdb.VerifTreeOp{Rank: r})
+				}
+			}
+			for r := 0; r < s.n; r++ {
+				cands = append(cands, memdb.VerifTreeOp{Del: true, Rank: r})
+			}
+			for _, c := range cands {
+				ops := append(append([]memdb.VerifTreeOp{}, s.ops...), c)
+				pool.Note([]byte(shapeOpsString(ops)))
+				res.Transitions++
+				shape, n, inv := memdb.VerifTreeShape(ops)
+				if inv != nil {
+					kind := inv[0]
+					if j := strings.Index(kind, ":"); j > 0 {
+						kind = kind[:j]
+					}
+					if !sigs[kind] && len(res.Viol) < 6 {
+						sigs[kind] = true
+						res.Viol = append(res.Viol, strings.Join(inv, "; "))
+						res.Seq = append(res.Seq, shapeOpsString(ops))
+					}
+					continue // a state behind a broken invariant is not expanded
+				}
+				if !seen[shape] {
+					seen[shape] = true
+					res.States++
+					res.PerNodes[n]++
+					next = append(next, st{ops, n})
+					if depth+1 > res.MaxDepth {
+						res.MaxDepth = depth + 1
+					}
+				}
+			}
+		}
+		frontier = next
+		progress()
+	}
+	b, _ := json.Marshal(res)
+	return b
+}
+
+func runShapeSearch(rep *ev.Report, maxNodes int) map[string]interface{} {
+	p := &pool.Pool{Handler: "c12shape", N: 1, Timeout: 120 * time.Second, MemMB: 4096}
+	b, _ := json.Marshal(shapeTask{MaxNodes: maxNodes})
+	cov := map[string]interface{}{"max_nodes": maxNodes, "exhaustive": false}
+	p.Map([][]byte{b}, func(tb, out []byte, crash *pool.Crash) [][]byte {
+		if crash != nil {
+			rep.Add(&ev.Violation{Engine: "seqmc/tree", Kind: "panic", Cmd: "btree", Shape: "shape-search", Detail: "worker " + crash.Kind + " in the shape search at [" + string(crash.Last) + "]: " + crash.Detail,
+				Replay: map[string]interface{}{"engine": "seqmc", "phase": "shape-search", "sequence": string(crash.Last)}})
+			return nil
+		}
+		var r shapeResult
+		json.Unmarshal(out, &r)
+		for i, v := range r.Viol {
+			kind := v
+			if j := strings.Index(v, ":"); j > 0 {
+				kind = v[:j]
+			}
+			rep.Add(&ev.Violation{Engine: "seqmc/tree", Kind: "invariant:" + kind, Cmd: "btree", Shape: "shape-search", Detail: r.Seq[i] + ": " + v,
+				Replay: map[string]interface{}{"engine": "seqmc", "phase": "shape-search", "sequence": r.Seq[i]}})
+		}
+		cov["states"] = r.States
+		cov["transitions"] = r.Transitions
+		cov["max_depth"] = r.MaxDepth
+		cov["shapes_per_node_count"] = r.PerNodes
+		cov["exhaustive"] = true
+		cov["rule"] = "BFS over AVL tree shapes on the real Btree: from every reachable shape with at most max_nodes nodes, insert at every rank and delete at every rank; fixpoint reached (no new shape); invariants after every operation"
+		return nil
+	})
+	return cov
+}
+
 // ------------------------------------------------------------------ C09 blocking pops on the virtual clock
 
 type timedThread struct {
